@@ -913,8 +913,6 @@ void HashMgrSim::execute_long(const Plan &p, Env &e, RunResult &r)
                 Client &c = s.cl[ci];
                 if (ci >= nlong) {
                         // short client: ordinary small segment
-                        Op so = o;
-                        so.a = 0;
                         St &sr = s;
                         // temporarily restrict eligibility to this client by direct submit
                         uint32_t flags = !c.started ? ((o.c & 3) == 0 ? ISAL_HASH_ENTIRE : ISAL_HASH_FIRST)
